@@ -198,9 +198,14 @@ LinkClauses(s, r, l, reach) ==
 \* ------------------------------------------------------------------ C07 pressure dependent demand
 PddParams(s, nd) == IF nd.has_pdd THEN [pmin |-> N(nd.pmin), preq |-> N(nd.preq), pexp |-> nd.pexp]
                     ELSE [pmin |-> N(s.pmin), preq |-> N(s.preq), pexp |-> s.pexp]
+\* a control may change a junction's required pressure during the run (nd.pctl: time-ordered [thr, val]); from the step
+\* at thr on the curve of that junction uses the new value
+RECURSIVE LastPctl(_, _, _, _)
+LastPctl(pc, t, i, cur) == IF i > Len(pc) THEN cur ELSE LastPctl(pc, t, i + 1, IF pc[i].thr <= t THEN N(pc[i].val) ELSE cur)
+PddParamsAt(s, nd, t) == LET pp == PddParams(s, nd) IN [pp EXCEPT !.preq = LastPctl(nd.pctl, t, 1, pp.preq)]
 Delta == Sci(5, -2)
 PDDClauses(s, r, nd) ==
-  LET pp == PddParams(s, nd)
+  LET pp == PddParamsAt(s, nd, r.t)
       p  == N(r.press[nd.name])
       d  == N(r.dem[nd.name])
       Dreq  == Requested(s, nd, r.t)
